@@ -57,6 +57,9 @@ def _case(rng, farmer=None, sow_constants=False):
     if farmer == 'sampler':
         c['engine'] = rng.choice(['pickle', 'csv'])
         c['initial'] = rng.choice(['none', 'some'])
+    # between sow and reap somebody else adds other points to the same store through an object of their own; the
+    # crop's farmer (pickled at sow time, possibly unpickled again for the reap) knows nothing of them
+    c['between'] = farmer in ('harvester', 'sampler') and rng.random() < 0.35
     if sow_constants: c['sow_constants'] = {'kk': 5}
     elif rng.random() < 0.2:
         # constants given at the sow call: new ones and ones that override the runner's own
@@ -69,7 +72,7 @@ def cases(ctx):
     out = [_case(rng) for _ in range(350 if ctx.tier == 'quick' else 4000)]
     for c in out:
         ctx.count('farmer', c['farmer']); ctx.count('to_df', c['to_df']); ctx.count('B', min(c['B'], 8))
-        ctx.count('reloads', len(c['reload'])); ctx.count('initial', c.get('initial', '-')); ctx.count('internal', any(c['desc']['dims']))
+        ctx.count('reloads', len(c['reload'])); ctx.count('initial', c.get('initial', '-')); ctx.count('between', bool(c.get('between'))); ctx.count('internal', any(c['desc']['dims']))
     return out
 
 
@@ -161,6 +164,21 @@ def run_real(c, ctx):
                 else:
                     skw = {'shuffle': c['shuffle'] or False}
                 crop.sow_combos(combos, verbosity=0, **kw, **mkw, **skw)
+            if c.get('between') and not conflict:
+                if c['farmer'] == 'harvester':
+                    _ = farmer.full_ds                      # the sowing farmer has looked at its store (and was pickled so)
+                    a0 = sweeps.fn_args(sw)[0]
+                    far = max([v for v in sw['values'][a0] if isinstance(v, (int, float))] + [0]) + 100
+                    other = {a: ([far] if a == a0 else [sw['values'][a][0]]) for a in sweeps.fn_args(sw)}
+                    f_far = fns.Rec(dict(f.spec, offset=3, values={**f.spec['values'], a0: list(f.spec['values'][a0]) + [far]}))
+                    for data in (data_crop, data_direct):
+                        h_other = _mk_farmer(xyz, c, f_far, data)[0]
+                        h_other.harvest_cases([tuple(other[a][0] for a in sweeps.fn_args(sw))], fn_args=sweeps.fn_args(sw), verbosity=0)
+                else:
+                    _ = farmer.full_df
+                    for data in (data_crop, data_direct):
+                        s_other = _mk_farmer(xyz, c, f, data)[0]
+                        s_other.add_df(s_other.runner.run_cases(cases_t[:1], fn_args=sw['case_args'], to_df=True, verbosity=0))
             if 'after_sow' in c['reload']:
                 crop = xyz.Crop(name='t', parent_dir=d)
             ids = list(range(1, c['B'] + 1)); random.Random(c['seed']).shuffle(ids)
@@ -190,6 +208,9 @@ def run_real(c, ctx):
             else:
                 res = crop.reap(**opts)
             fm = crop.farmer                       # after a reload this is the unpickled farmer
+            if c.get('between') and not conflict:
+                # the reference is a direct run by somebody who starts from the store as it is now
+                farmer2, runner2 = _mk_farmer(xyz, c, f, data_direct)
             # direct path on the twin
             dkw = {'constants': c['sow_constants']} if c.get('sow_constants') else {}
             if c['farmer'] == 'runner':
